@@ -47,6 +47,11 @@ type Opts struct {
 	// in-process streams. Fatal must be 0 (a response produced while the RPC ends
 	// is not observable over a real transport).
 	Net bool
+	// ObserveEvery > 1: the server is read back (Get + hooks) only after every n-th request
+	// and at the end, so that several writes in a row are not separated by the harness's own
+	// reads (a server-side read cache must not depend on being refreshed by the observer).
+	// The model and the fold are advanced after every request all the same.
+	ObserveEvery int
 	// AfterBatch is called at every observation point.
 	AfterBatch func(s *drive.Srv, m *model.RIB, v *ev.Verdict, when string)
 }
@@ -189,6 +194,7 @@ func RunHistory(h hgen.History, o Opts) (*ev.Verdict, *l1.Trace) {
 	opIdx := 0
 	bi := 0
 	i := 0
+	nreq := 0
 	for i < len(h.Steps) {
 		st := h.Steps[i]
 		if st.Op == nil {
@@ -363,8 +369,11 @@ func RunHistory(h hgen.History, o Opts) (*ev.Verdict, *l1.Trace) {
 		if len(v.Findings) > 0 {
 			return v, tr
 		}
-		if !observe(when) {
-			return v, tr
+		nreq++
+		if o.ObserveEvery <= 1 || nreq%o.ObserveEvery == 0 || i >= len(h.Steps) || fatalAt >= 0 {
+			if !observe(when) {
+				return v, tr
+			}
 		}
 		if fatalAt >= 0 {
 			tr.Failed++
